@@ -325,9 +325,22 @@ def strip_facts(s):
     last = z3.SubString(r, n - 1, 1)
     s_first = z3.SubString(s, 0, 1)
     s_last = z3.SubString(s, z3.Length(s) - 1, 1)
-    return [z3.Contains(s, r),
+    extra = []
+    if z3.is_app(s) and s.decl().kind() == z3.Z3_OP_SEQ_CONCAT:
+        # a concatenation with a literal part that has a non-blank character does not strip to ''
+        for ch in s.children():
+            if z3.is_string_value(ch) and ch.as_string().strip() != '':
+                extra.append(n > 0)
+                break
+    # (instances of: a string with a non-blank character does not strip to '')
+    for c in ('*', '_', '+', '-'):
+        extra.append(z3.Implies(z3.Contains(s, z3.StringVal(c)), n > 0))
+    return extra + [z3.Contains(s, r),
             z3.Implies(n > 0, z3.And(z3.Not(_ws_char(first)), z3.Not(_ws_char(last)))),
             z3.Implies(z3.Or(z3.Length(s) == 0, z3.And(z3.Not(_ws_char(s_first)), z3.Not(_ws_char(s_last)))), r == s),
+            # a non-blank end is kept: the result starts (ends) with the same character
+            z3.Implies(z3.And(z3.Length(s) > 0, z3.Not(_ws_char(s_first))), z3.And(n > 0, first == s_first)),
+            z3.Implies(z3.And(z3.Length(s) > 0, z3.Not(_ws_char(s_last))), z3.And(n > 0, last == s_last)),
             Strip(r) == r]
 
 
